@@ -136,7 +136,7 @@ def oracle(ctx):
     # … and wherever the assignment is written: the same units with the list assignment moved into a drop-in (merged through
     # load_dropins_from, where the raw text must survive unchanged) generate the same services
     import filespell
-    LISTS = [value, 'a "b c" d', "it's 'x y' z", 'k="v w" l=x', 'a\tb  c', 't1\tt2', '"" e f', 'm="0 1000"', 'x\\y "p\"q"', "'s t'u v"]
+    LISTS = [value, 'a "b c" d', "it's 'x y' z", 'k="v w" l=x', 'a\tb  c', 't1\tt2', '"" e f', 'm="0 1000"', 'x\\\\y "p\\"q"', "'s t'u v"]
     sets = []
     for ty, key, kind, text in conv_cases:
         for _ in range(3 if ctx.thorough else 1):
